@@ -156,7 +156,7 @@ impl Prop for C05 {
     }
 
     fn rule(&self) -> String {
-        "Cases: generated walks; every position visited (and every legal successor of it) enters the explored set keyed by the reference model's (placement, side, rights, en-passant file); within a shard and again across all shards after the merge, equal engine hashes must mean equal keys. For sampled positions ALL single-feature variations are enumerated (side flipped; each of 4 rights toggled; each of the other 8-9 en-passant values; each non-king square replaced by each of the 10 other contents) and all exchanges of the contents of two occupied non-king squares (two men trading places, e.g. a white and a black knight), imported from text, and must all hash differently from the origin and from each other. evaluations = positions hashed (explored set visits + variations). Non-trivial = every distinct position of the explored set (distinct by key); variation counts are reported separately.".into()
+        "Cases: generated walks; every position visited (and every legal successor of it) enters the explored set keyed by the reference model's (placement, side, rights, en-passant file); within a shard and again across all shards after the merge, equal engine hashes must mean equal keys. For sampled positions ALL single-feature variations are enumerated (side flipped; each of 4 rights toggled; each of the other 8-9 en-passant values; each non-king square replaced by each of the 10 other contents) and all exchanges of the contents of two occupied non-king squares (two men trading places, e.g. a white and a black knight), imported from text, and must all hash differently from the origin and from each other. A state laboratory (boards on which all four castling rights and four en-passant files are possible at once: all 80 combinations, both colours) must hash to pairwise different values. evaluations = positions hashed (explored set visits + variations). Non-trivial = every distinct position of the explored set (distinct by key); variation counts are reported separately.".into()
     }
 
     fn assumptions(&self) -> Vec<String> {
@@ -242,6 +242,42 @@ impl Prop for C05 {
             if let Err(fail) = self.check(ctx, &case, ev) {
                 report(case, fail);
                 return;
+            }
+        }
+        // state laboratory: on boards where every castling right and several en-passant files are possible at once,
+        // all combinations of (rights, en-passant file) - 16 x 5 states per board and side - must hash differently
+        if ctx.owns(900) {
+            for (board, files) in [("r3k2r/8/8/pPpPpPpP/8/8/8/R3K2R w", [0u8, 2, 4, 6]), ("r3k2r/8/8/PpPpPpPp/8/8/8/R3K2R w", [1u8, 3, 5, 7])] {
+                for mirrored in [false, true] {
+                    let mut hs: HashMap<u64, String> = HashMap::new();
+                    for rights in 0..16u8 {
+                        for e in 0..5usize {
+                            let crs: String = "KQkq".chars().enumerate().filter(|(i, _)| rights >> i & 1 == 1).map(|(_, c)| c).collect();
+                            let eps = if e == 0 { "-".to_string() } else { format!("{}6", (b'a' + files[e - 1]) as char) };
+                            let fen = format!("{} {} {} 0 1", board, if crs.is_empty() { "-" } else { &crs }, eps);
+                            let Ok(p0) = Pos::from_fen(&fen) else { continue };
+                            let p = if mirrored { p0.mirror() } else { p0 };
+                            if !p.sane() {
+                                continue;
+                            }
+                            ev.eval();
+                            ev.class("state_laboratory_positions");
+                            match import(&p.fen6()) {
+                                Ok(g) => {
+                                    if let Some(other) = hs.insert(g.hash(), p.fen4()) {
+                                        let pair = CollCase::Pair { a: format!("{} 0 1", other), b: p.fen6() };
+                                        report(pair, Fail::new("two-positions-share-a-hash", format!("{} and {} both hash {:X}", other, p.fen4(), g.hash())));
+                                        return;
+                                    }
+                                }
+                                Err(f) => {
+                                    report(CollCase::Vary { fen: p.fen6() }, f);
+                                    return;
+                                }
+                            }
+                        }
+                    }
+                }
             }
         }
         if ctx.tier == Tier::Thorough {
